@@ -476,7 +476,10 @@ C18Case(P, sh) ==
                           <<MsgN("OrderReq", FN(P, "OrderReq"), <<FRef("item", "item", 1, "message", "one", FN(P, "OrderReq") \o ".Item")>>,
                                  <<Msg("Item", FN(P, "OrderReq") \o ".Item", <<F("sku", "sku", 1, "string", "one")>>)>>),
                             MsgN("InvoiceResp", FN(P, "InvoiceResp"), <<FRef("item", "item", 1, "message", "one", FN(P, "InvoiceResp") \o ".Item")>>,
-                                 <<Msg("Item", FN(P, "InvoiceResp") \o ".Item", <<F("amount", "amount", 1, "double", "one"), F("currency", "currency", 2, "string", "one")>>)>>)>>, <<>>)>>)
+                                 <<Msg("Item", FN(P, "InvoiceResp") \o ".Item", <<F("amount", "amount", 1, "double", "one"), F("currency", "currency", 2, "string", "one"),
+                                                                                   FRef("dim", "dim", 3, "message", "one", FN(P, "Dimensions"))>>)>>),
+                            Msg("Dimensions", FN(P, "Dimensions"), <<F("w", "w", 1, "double", "one"), FRef("unit", "unit", 2, "message", "one", FN(P, "Unit"))>>),
+                            Msg("Unit", FN(P, "Unit"), <<F("name", "name", 1, "string", "one")>>)>>, <<>>)>>)
        [] sh = "multi_service" ->
             Schema(<<File(P \o "/svc.proto", Pkg(P), GoPkg(P), TRUE, <<>>,
                           <<Svc(P, <<do("Do", FN(P, "In"), FN(P, "Out"), Parts(TRUE, <<Lit("do")>>, FALSE), "POST")>>),
@@ -510,7 +513,7 @@ C18Case(P, sh) ==
 (* C04 / C05: each annotated construct A in each context inside the RPC's  *)
 (* top-level message.                                                      *)
 (***************************************************************************)
-Constructs == {"int64num", "enumcustom", "enumnum", "nullable", "empty", "ts", "bytes", "oneof", "oneofflat", "flatten",
+Constructs == {"kinds", "wkt", "wkt2", "int64num", "enumcustom", "enumnum", "nullable", "empty", "ts", "bytes", "oneof", "oneofflat", "flatten",
                "flattenprefix", "unwraplist", "unwrapmap", "multiword", "int64rep", "plain"}
 TS == "google.protobuf.Timestamp"
 \* the annotated message A (and the helper messages it needs)
@@ -536,6 +539,17 @@ ConstructMsgs(P, c) ==
        [] c = "unwraplist" -> <<a(<<Ann(F("items", "items", 1, "string", "rep"), "unwrap", TRUE)>>)>>
        [] c = "unwrapmap"  -> <<Msg("L", FN(P, "L"), <<Ann(FRef("items", "items", 1, "message", "rep", ch), "unwrap", TRUE)>>),
                                 a(<<FMap("by_key", "byKey", 1, "string", "message", FN(P, "L")), F("sib_ling", "sibLing", 2, "string", "one")>>)>>
+       [] c = "kinds"      -> <<a(<<F("f_double", "fDouble", 1, "double", "rep"), F("f_float", "fFloat", 2, "float", "opt"), F("f_int32", "fInt32", 3, "int32", "rep"),
+                                   F("f_uint32", "fUint32", 4, "uint32", "one"), F("f_sint64", "fSint64", 5, "sint64", "rep"), F("f_fixed64", "fFixed64", 6, "fixed64", "opt"),
+                                   F("f_bool", "fBool", 7, "bool", "opt"), F("f_bytes", "fBytes", 8, "bytes", "rep"), FRef("f_enum", "fEnum", 9, "enum", "rep", FN(P, "P")),
+                                   FMap("m_int", "mInt", 10, "int64", "double", ""), FMap("m_bool", "mBool", 11, "bool", "bytes", ""),
+                                   FMap("m_enum", "mEnum", 12, "string", "enum", FN(P, "P")), FMap("m_msg", "mMsg", 13, "uint32", "message", ch),
+                                   FRef("o_msg", "oMsg", 14, "message", "opt", ch), FRef("r_msg", "rMsg", 15, "message", "rep", ch)>>)>>
+       [] c = "wkt"        -> <<a(<<FRef("t", "t", 1, "message", "one", TS), FRef("ts", "ts", 2, "message", "rep", TS), FMap("mt", "mt", 3, "string", "message", TS),
+                                   FRef("ot", "ot", 4, "message", "opt", TS), FMap("it", "it", 5, "int32", "message", TS),
+                                   FRef("e", "e", 8, "message", "one", "google.protobuf.Empty")>>)>>
+       [] c = "wkt2"       -> <<a(<<FRef("d", "d", 4, "message", "one", "google.protobuf.Duration"), FRef("sv", "sv", 5, "message", "one", "google.protobuf.StringValue"),
+                                   FRef("iv", "iv", 6, "message", "one", "google.protobuf.Int64Value"), FRef("st", "st", 7, "message", "one", "google.protobuf.Struct")>>)>>
        [] c = "multiword"  -> <<a(<<Ann(F("big_number", "bigNumber", 1, "int64", "one"), "int64", "NUMBER"), F("plain_text", "plainText", 2, "string", "one"),
                                    F("with2digits", "with2digits", 3, "int32", "one")>>)>>
        [] c = "plain"      -> <<a(<<F("s", "s", 1, "string", "one"), F("n", "n", 2, "int64", "one"), FRef("c", "c", 3, "message", "one", ch),
